@@ -72,16 +72,17 @@ def replay(progs, plans, settle=None):
         for k, b in enumerate(bs):
             jid = "%s|%s|plan%d" % (name, mode, k)
             jobs.append({"id": jid, "text": text[name], "mode": mode, "typecheck": True, "execute": True, "monitor": False, "gomaxprocs": 8, "seed": k,
-                         "yield": 0.0, "trace": True, "plan": norm_plan(b["plan"]), "max_ms": 20000, "max_events": 30000})
+                         "yield": 0.0, "trace": True, "plan": norm_plan(b["plan"]), "max_ms": 60000, "max_events": 30000})
             meta[jid] = b
-    res = vlib.run_jobs(os.path.join(vlib.BUILD, "vdrive"), jobs, batch=1, timeout=40)
+    res = vlib.run_jobs(os.path.join(vlib.BUILD, "vdrive"), jobs, batch=1, timeout=90)
     out = []
     for j in jobs:
         r, b = res[j["id"]], meta[j["id"]]
         name, mode, _ = j["id"].split("|")
         out.append({"id": j["id"], "prog": name, "mode": mode, "steps": len(b["plan"]), "div": r.get("replay_div", -1), "why": r.get("replay_why", ""),
                     "prints": r.get("prints"), "crash": r.get("crash"), "hang": r.get("hang") or r.get("timeout"), "late": r.get("late", 0), "blocked": r.get("blocked"),
-                    "spec_out": list(b["out"]), "spec_err": list(b["err"]), "plan": norm_plan(b["plan"])})
+                    "spec_out": list(b["out"]), "spec_err": list(b["err"]), "plan": norm_plan(b["plan"]),
+                    "events": [] if r.get("overflow") or r.get("timeout") else (r.get("events") or [])})
     return out
 
 
